@@ -1156,7 +1156,7 @@ def bi_dict(eng, st, pos, kw):
         return [dict_from_pairs(eng, st, [])]
     if len(pos) == 1 and not kw and isinstance(pos[0], C.VGen):
         return C.dict_from_gen(eng, st, pos[0])
-    if len(pos) == 1 and not kw and isinstance(pos[0], VObj) and pos[0].kind == "dict":
+    if len(pos) == 1 and not kw and isinstance(pos[0], VObj) and pos[0].kind == "dict" and not st.objs[pos[0].oid].get("pure"):
         # dict(d): a NEW dictionary with the same keys and values (what d.copy() returns)
         return container_method(eng, st, pos[0], "copy", [], {})
     if len(pos) == 1 and not kw and isinstance(pos[0], VObj) and pos[0].kind == "tlist" and len(st.objs[pos[0].oid]["kinds"]) == 2:
